@@ -68,50 +68,64 @@ Proof.
     destruct (grun s1 es1) as [g1 r1']. destruct (grun g1 es2) as [g2 r2]. rewrite app_assoc. reflexivity.
 Qed.
 
-(* sends against a closed gate *)
-Lemma grun_sends_closed g n :
-  g_closed g = true -> grun g (repeat GSend n) = (g, repeat Refused n).
+(* the events that write behind the gate: application sends and stream-management retransmissions *)
+Definition is_write (e : gev) : Prop := e = GSend \/ e = GResend.
+
+Lemma writes_are n m : Forall is_write (repeat GSend n ++ repeat GResend m).
 Proof.
-  intros Hc. induction n as [|n IH]; [reflexivity|].
-  cbn [repeat grun gstep]. rewrite Hc, IH. reflexivity.
+  apply Forall_app; split.
+  - induction n; constructor; [left; reflexivity|assumption].
+  - induction m; constructor; [right; reflexivity|assumption].
+Qed.
+
+(* sends and retransmissions against a closed gate *)
+Lemma grun_writes_closed g es :
+  g_closed g = true -> Forall is_write es -> grun g es = (g, repeat Refused (length es)).
+Proof.
+  intros Hc H. induction H as [|e es He _ IH]; [reflexivity|].
+  cbn [grun length repeat]. destruct He as [-> | ->]; cbn [gstep]; rewrite Hc, IH; reflexivity.
 Qed.
 
 Lemma all_refused_repeat n : all_refused (repeat Refused n).
 Proof. induction n; constructor; [reflexivity|assumption]. Qed.
 
-(* while connect() runs: every send is refused, the gate stays closed, the ghost follows the
-   negotiation's writes *)
-Lemma grun_weave w : forall k during g,
+(* while connect() runs: every send and every retransmission is refused, the gate stays closed,
+   the ghost follows the negotiation's writes *)
+Lemma grun_weave w : forall k during rduring g,
   g_closed g = true ->
-  exists rs, grun g (weave w k during) =
+  exists rs, grun g (weave w k during rduring) =
              ({| g_closed := true; g_conn := g_conn g; g_tls := final_tls w (g_tls g) |}, rs)
              /\ all_refused rs.
 Proof.
-  induction w as [|x w IH]; intros k during g Hc; cbn [weave].
-  - rewrite (grun_sends_closed g _ Hc). exists (repeat Refused (count_from k during)). split.
+  induction w as [|x w IH]; intros k during rduring g Hc; cbn [weave].
+  - rewrite (grun_writes_closed g _ Hc (writes_are _ _)). eexists. split.
     + destruct g as [c n t]. cbn in *. subst c. reflexivity.
     + apply all_refused_repeat.
-  - rewrite grun_app. rewrite (grun_sends_closed g _ Hc).
+  - rewrite grun_app. rewrite (grun_writes_closed g _ Hc (writes_are _ _)).
     cbn [grun gstep].
-    destruct (IH (S k) during {| g_closed := g_closed g; g_conn := g_conn g; g_tls := o_tls x |} Hc) as (rs & E & Hr).
+    destruct (IH (S k) during rduring {| g_closed := g_closed g; g_conn := g_conn g; g_tls := o_tls x |} Hc) as (rs & E & Hr).
     rewrite E. cbn [g_conn g_tls]. eexists. split; [reflexivity|].
     apply Forall_app; split; [apply all_refused_repeat|exact Hr].
 Qed.
 
-(* sends after connect() returned *)
-Lemma grun_sends_after g n :
-  gate_inv g -> no_clear (snd (grun g (repeat GSend n))) /\ fst (grun g (repeat GSend n)) = g.
+(* sends and retransmissions after connect() returned *)
+Lemma grun_writes_after g es :
+  gate_inv g -> Forall is_write es ->
+  no_clear (snd (grun g es)) /\ fst (grun g es) = g /\ length (snd (grun g es)) = length es.
 Proof.
-  intros Hg. induction n as [|n IH]; [split; [constructor|reflexivity]|].
-  cbn [repeat grun gstep]. destruct (grun g (repeat GSend n)) as [g2 r2]. cbn [fst snd] in *.
-  destruct IH as [IH1 IH2]. split; [|exact IH2].
+  intros Hg H. induction H as [|e es He _ IH]; [repeat split; constructor|].
+  cbn [grun]. destruct IH as (IH1 & IH2 & IH3).
+  assert (E : gstep g e = (g, [if g_closed g then Refused else if g_conn g then Written (g_tls g) else Refused])).
+  { destruct He as [-> | ->]; reflexivity. }
+  rewrite E. destruct (grun g es) as [g2 r2]. cbn [fst snd app length] in *.
+  split; [|split; [exact IH2|f_equal; exact IH3]].
   constructor; [|exact IH1].
   destruct (g_closed g) eqn:Ec; [discriminate|].
   destruct (g_conn g) eqn:En; [|discriminate].
   rewrite (Hg Ec En). discriminate.
 Qed.
 
-(* one connection attempt with its sends *)
+(* one connection attempt with its sends and retransmissions *)
 Lemma grun_conn_trace cfg dial tls p s pl g :
   c_insecure cfg = false ->
   let x := connect cfg dial tls p s in
@@ -121,14 +135,14 @@ Proof.
   intros Hi x. unfold conn_trace. cbn [grun gstep].
   set (g1 := {| g_closed := true; g_conn := g_conn g || dial; g_tls := if dial then false else g_tls g |}).
   rewrite grun_app.
-  destruct (grun_weave (fst (fst x)) 0 (pl_during pl) g1 eq_refl) as (rs & E & Hr). rewrite E.
+  destruct (grun_weave (fst (fst x)) 0 (pl_during pl) (pl_rduring pl) g1 eq_refl) as (rs & E & Hr). rewrite E.
   cbn [grun gstep g_closed g_conn g_tls].
-  match goal with |- context [grun ?gg (repeat GSend _)] => set (g2 := gg) end.
+  match goal with |- context [grun ?gg (repeat GSend _ ++ _)] => set (g2 := gg) end.
   assert (Hg2 : gate_inv g2).
   { intros Hc _. subst g2 g1. cbn [g_closed g_conn g_tls] in *. destruct (snd (fst x)) eqn:Er; [|discriminate].
     subst x. apply (connect_ok_final_tls cfg dial tls p s _ Hi Er). }
-  destruct (grun_sends_after g2 (pl_after pl) Hg2) as [Hn Hf].
-  destruct (grun g2 (repeat GSend (pl_after pl))) as [g3 r3]. cbn [fst snd] in *. subst g3.
+  destruct (grun_writes_after g2 _ Hg2 (writes_are (pl_after pl) (pl_rafter pl))) as (Hn & Hf & _).
+  destruct (grun g2 (repeat GSend (pl_after pl) ++ repeat GResend (pl_rafter pl))) as [g3 r3]. cbn [fst snd] in *. subst g3.
   split; [|exact Hg2].
   cbn [app]. apply Forall_app; split; [apply all_refused_no_clear; exact Hr|exact Hn].
 Qed.
@@ -146,27 +160,37 @@ Proof.
   destruct H as [H1 H2]. constructor; [exact H1|]. apply IH; assumption.
 Qed.
 
-(* while the attempt runs (and after it failed) nothing at all is written by a send, whatever
-   Insecure says *)
+(* while the attempt runs (and after it failed) nothing at all is written by a send or by a
+   retransmission, whatever Insecure says *)
 Lemma conn_trace_during_refused dial w r pl g :
   exists rs rs', snd (grun g (conn_trace dial w r pl)) = rs ++ rs' /\
-                 all_refused rs /\ length rs' = pl_after pl /\
+                 all_refused rs /\ length rs' = (pl_after pl + pl_rafter pl)%nat /\
                  (r <> Ok -> all_refused rs').
 Proof.
   unfold conn_trace. cbn [grun gstep].
   set (g1 := {| g_closed := true; g_conn := g_conn g || dial; g_tls := if dial then false else g_tls g |}).
   rewrite grun_app.
-  destruct (grun_weave w 0 (pl_during pl) g1 eq_refl) as (rs & E & Hr). rewrite E.
+  destruct (grun_weave w 0 (pl_during pl) (pl_rduring pl) g1 eq_refl) as (rs & E & Hr). rewrite E.
   cbn [grun gstep g_closed g_conn g_tls].
-  match goal with |- context [grun ?gg (repeat GSend _)] => set (g2 := gg) end.
-  destruct (grun g2 (repeat GSend (pl_after pl))) as [g3 r3] eqn:E3. cbn [snd app].
+  match goal with |- context [grun ?gg (repeat GSend _ ++ _)] => set (g2 := gg) end.
+  pose proof (writes_are (pl_after pl) (pl_rafter pl)) as Hw.
+  assert (Hlen : length (repeat GSend (pl_after pl) ++ repeat GResend (pl_rafter pl)) = (pl_after pl + pl_rafter pl)%nat).
+  { rewrite app_length, !repeat_length. reflexivity. }
+  revert Hw Hlen. generalize (repeat GSend (pl_after pl) ++ repeat GResend (pl_rafter pl)). intros es Hw Hlen.
+  destruct (grun g2 es) as [g3 r3] eqn:E3. cbn [snd app].
   exists rs, r3. split; [reflexivity|]. split; [exact Hr|]. split.
-  - clear -E3. revert g3 r3 E3. induction (pl_after pl) as [|n IH]; intros g3 r3 E3; cbn in E3.
+  - rewrite <- Hlen. clear -E3 Hw. revert g3 r3 E3. induction Hw as [|e es He _ IH]; intros g3 r3 E3; cbn in E3.
     + injection E3 as _ <-. reflexivity.
-    + destruct (grun g2 (repeat GSend n)) as [g4 r4]. injection E3 as _ <-. cbn. f_equal. eapply IH; reflexivity.
+    + assert (Hl : length (snd (gstep g2 e)) = 1%nat /\ fst (gstep g2 e) = g2) by (destruct He as [-> | ->]; split; reflexivity).
+      destruct (gstep g2 e) as [s1 r1]. cbn [fst snd] in Hl. destruct Hl as [Hl ->].
+      destruct (grun g2 es) as [g4 r4]. injection E3 as _ <-. rewrite app_length, Hl. cbn. f_equal. eapply IH; reflexivity.
   - intros Hne. assert (Hc : g_closed g2 = true). { subst g2. cbn. destruct r; [congruence|reflexivity]. }
-    rewrite (grun_sends_closed g2 _ Hc) in E3. injection E3 as _ <-. apply all_refused_repeat.
+    rewrite (grun_writes_closed g2 _ Hc Hw) in E3. injection E3 as _ <-. apply all_refused_repeat.
 Qed.
+
+(* a retransmission against a closed gate writes nothing *)
+Lemma gstep_resend_closed g : g_closed g = true -> gstep g GResend = (g, [Refused]).
+Proof. intros Hc. cbn. rewrite Hc. reflexivity. Qed.
 
 (* ---------- websocket opening handshake ---------- *)
 Lemma ws_dial_https_stays rs : forall n s, ws_dial Https rs n = Some s -> s = Https.
